@@ -26,7 +26,7 @@ VEC, VECLIST, MATX, PERMLIST = "V", "(list V)", "M", "(list (list Z))"      # ei
 DICTL = "(list (string * list Z))"      # a dictionary from strings to lists of ints
 MAT2 = "(list (list Q))"      # a two-dimensional numpy float array
 IDLMAP = "(string -> idl)"        # a dictionary name -> configuration list, read only (keys are iterated through an alias)
-EXN = {"IndexError": "IndexError", "ValueError": "ValueError", "ZeroDivisionError": "ZeroDivisionError", "TypeError": "TypeError"}
+EXN = {"IndexError": "IndexError", "ValueError": "ValueError", "ZeroDivisionError": "ZeroDivisionError", "TypeError": "TypeError", "KeyError": "NameError"}
 
 
 def _d(node):
@@ -860,6 +860,23 @@ class Fn:
                 s = ast.For(target=s.target.elts[1], iter=s.iter.args[0], body=s.body, orelse=[])
             if s.orelse or not isinstance(s.target, ast.Name):
                 raise TranslateError("%s: for-else / tuple target" % self.name)
+            # search loop:  for x in xs: if cond: return e
+            if len(s.body) == 1 and isinstance(s.body[0], ast.If) and not s.body[0].orelse and len(s.body[0].body) == 1 \
+                    and isinstance(s.body[0].body[0], ast.Return) and s.body[0].body[0].value is not None:
+                b = []
+                xs, tx = self.iterable(s.iter, env, b)
+                env2 = dict(env)
+                env2[s.target.id] = tx
+                bc = []
+                c, tc = self.expr(s.body[0].test, env2, bc)
+                bv = []
+                v, tv = self.expr(s.body[0].body[0].value, env2, bv)
+                if tc != BOOL:
+                    raise TranslateError("%s: condition of type %s" % (self.name, tc))
+                hit = self.seq(bv, "(Ok (Some %s))" % self.coerce(v, tv, self.ret))
+                fun = "(fun %s => %s)" % (self.v(s.target.id), self.seq(bc, "(if %s then %s else (Ok None))" % (c, hit)))
+                r = self.fresh("r")
+                return self.seq(b, "%s <- py_first %s %s ;; match %s with Some found_ => Ok found_ | None => %s end" % (r, xs, fun, r, nxt(env)))
             for n in ast.walk(s):
                 if isinstance(n, (ast.Return, ast.Break, ast.Continue, ast.Raise)):
                     raise TranslateError("%s: return / break / continue / raise inside a loop" % self.name)
@@ -963,6 +980,26 @@ def frag_drho(fn):
     return [body[0], ast.Return(value=v.args[0])]
 
 
+def frag_window_search(fn):
+    """Obs.gamma_method: the automatic-windowing loop `for n in range(1, w_max): if g_w[n - 1] < 0 or n >= w_max - 1: ...; break`.
+    The fragment is the search itself: which n the loop stops at (its body up to `break` is the bookkeeping of that n)."""
+    want_iter = _d(ast.parse("range(1, w_max)", mode="eval").body)
+    probe = _d(ast.parse("g_w[n - 1] < 0", mode="eval").body)
+    found = [x for x in ast.walk(fn) if isinstance(x, ast.For) and _d(x.iter) == want_iter and isinstance(x.target, ast.Name) and x.target.id == "n"
+             and len(x.body) == 1 and isinstance(x.body[0], ast.If) and probe in _d(x.body[0].test)]
+    if len(found) != 1:
+        raise TranslateError("gamma_method: the automatic-windowing loop was not found exactly once")
+    loop = found[0]
+    cond = loop.body[0]
+    if loop.orelse or cond.orelse or not isinstance(cond.body[-1], ast.Break) or any(isinstance(x, (ast.Break, ast.Continue, ast.Return)) for st in cond.body[:-1] for x in ast.walk(st)):
+        raise TranslateError("gamma_method: the windowing loop does not stop with a single `break` at the end of its `if`")
+    stored = [st for st in cond.body if isinstance(st, ast.Assign) and _d(st.targets[0]).replace("Store()", "Load()") == _d(ast.parse("self.e_windowsize[e_name]", mode="eval").body)]
+    if len(stored) != 1 or not (isinstance(stored[0].value, ast.Name) and stored[0].value.id == "n"):
+        raise TranslateError("gamma_method: the window stored is not the loop variable n")
+    search = ast.For(target=loop.target, iter=loop.iter, body=[ast.If(test=cond.test, body=[ast.Return(value=ast.Name(id="n", ctx=ast.Load()))], orelse=[])], orelse=[])
+    return [search, ast.Raise(exc=ast.Call(func=ast.Name(id="KeyError", ctx=ast.Load()), args=[], keywords=[]), cause=None)]
+
+
 def frag_sort_corr_mapping(fn):
     """sort_corr: the statements that build `mapping` (everything before corr_sorted is allocated), returning mapping."""
     body = [st for st in fn.body if not (isinstance(st, ast.Expr) and isinstance(st.value, ast.Constant))]
@@ -1051,6 +1088,9 @@ SIGS = [
     dict(coq="sort_corr_mapping", py="sort_corr", fragment=frag_sort_corr_mapping, params=[], ret=INTLIST,
          extra_params=[("v_kl", STRLIST), ("v_sizes", "(string -> Z)")], env={"kl": STRLIST},
          aliases={"len(yd[k])": ("(v_sizes v_k)", INT)}, hints={"posd": DICTL, "mapping": INTLIST}),
+    dict(coq="gamma_method_window_search", py="Obs.gamma_method", fragment=frag_window_search, params=[], ret=INT,
+         extra_params=[("v_gneg", "(Z -> bool)"), ("v_w_max", INT)], env={"w_max": INT},
+         aliases={"g_w[n - 1] < 0": ("(v_gneg (v_n - 1))", BOOL)}),
     dict(coq="_reduce_deltas", py="_reduce_deltas", params=[("deltas", ARR), ("idx_old", IDL), ("idx_new", IDL)], ret=ARR),
     dict(coq="covariance_calc_gamma", py="_covariance_element.calc_gamma", needs=["_reduce_deltas"],
          params=[("deltas1", ARR), ("deltas2", ARR), ("idx1", IDL), ("idx2", IDL), ("new_idx", IDL)], ret=FLOAT),
